@@ -250,11 +250,9 @@ def do_replay(path):
         try:
             ws.populate()
             ws.splice_all()
-            f = os.path.join(ws.ws, rp["file"])
-            s = open(f).read()
-            i = s.rstrip().rfind("}")
-            s = s[:i] + "\n" + rp["src"] + "\n}\n"
-            open(f, "w").write(s)
+            for hook in PROPS.get(rp["property"], {}).get("prepare", []):
+                hook(ws)
+            R.insert_tests(ws, rp["file"], [rp["src"]])
             ok = False
             for rel in (False, True):
                 res, crashed, outp = R.run_playback(ws, rp["crate"], rp["test"], rp.get("features", ()), rel)
